@@ -26,10 +26,13 @@ class Case(object):
     int_inside / int_outside : lists of (kind, x) INTEGER-VALUED points inside / outside the support; each of them is
                 handed to gradient() in every representation of `reps_for` (float64 array, int64 array, list of
                 python ints, float32 array, python int / float for one-component variables)
+    boundary  : list of (at, kind, x): points exactly ON finite bounds of the (box) support - faces and corners; `at` in
+                {"lower", "upper", "mixed"} says which bounds the point touches.  They are judged by the object's own logd
+                (observe_boundary): no claim is made here whether the family counts its boundary to the support
     """
 
     def __init__(self, component, facets, obj, inside, outside=(), fd_targets=None, ref_logd=None,
-                 int_inside=(), int_outside=()):
+                 int_inside=(), int_outside=(), boundary=()):
         self.component = component
         self.facets = dict(facets)
         self.obj = obj
@@ -37,6 +40,7 @@ class Case(object):
         self.outside = list(outside)
         self.int_inside = list(int_inside)
         self.int_outside = list(int_outside)
+        self.boundary = list(boundary)
         self.fd_targets = [obj] if fd_targets is None else list(fd_targets)
         self.ref_logd = ref_logd
 
@@ -226,6 +230,176 @@ def observe_outside(case, kind, x, rep=None):
                 "msg": "finite gradient %s reported outside the support at %s%s"
                 % (np.array2string(a.ravel(), precision=6), np.array2string(x, precision=6), _given(rep))}
     return {"status": "ok", "allnan": bool(np.all(np.isnan(a)))}
+
+
+# ------------------------------------------------------------------------------------------
+# points exactly ON a finite bound of the support (faces, corners): judged by the object's own logd
+# ------------------------------------------------------------------------------------------
+def _probe(obj, x):
+    """logd at x as a float; NaN when the object's logd raises or is not a scalar"""
+    try:
+        return _logd_scalar(obj, x)
+    except Exception:
+        return float("nan")
+
+
+def _axis_derivative(obj, x, i, f0, side):
+    """Richardson-extrapolated derivative of obj.logd along axis i at x with base steps H1 and H2.
+    side = 0: central differences (O(h^4)); side = +1 / -1: one-sided three-point differences that use only points on
+    that side of x (O(h^3)).  Returns the list of candidate values [R(H1), R(H2), raw(H1/2)] or None when some logd
+    value needed is not finite or the two extrapolations disagree by > 1e-6 (no trustworthy derivative)."""
+    def f(t):
+        z = np.array(x, dtype=float, copy=True)
+        z[i] += t
+        return _probe(obj, z)
+
+    def D(h):
+        if side == 0:
+            return (f(h) - f(-h)) / (2 * h)
+        return side * (-3.0 * f0 + 4.0 * f(side * h) - f(2 * side * h)) / (2 * h)
+    out, raw = [], None
+    for h in (H1, H2):
+        d1, d2 = D(h), D(h / 2)
+        out.append((4.0 * d2 - d1) / 3.0)
+        raw = d2 if raw is None else raw
+    if not np.all(np.isfinite(out)):
+        return None
+    if abs(out[0] - out[1]) > 1e-6 * max(1.0, abs(out[0]), abs(out[1])):
+        return None
+    return out + [raw]
+
+
+def one_sided_pair(obj, x, i, f0):
+    """both one-sided derivatives along axis i (logd finite on both sides), [] when one of them is not trustworthy"""
+    ws = [_axis_derivative(obj, x, i, f0, s) for s in (+1, -1)]
+    return (ws[0] + ws[1]) if (ws[0] is not None and ws[1] is not None) else []
+
+
+def boundary_reference(obj, x):
+    """What the object's own logd says about the derivative at a point x lying on a bound of the support.
+
+    -> ("skip", reason)        logd raises / is NaN at x: nothing can be demanded
+       ("nonfinite", f0)       logd = -inf (or +inf) at x: no finite derivative exists; the gradient must not be finite
+       ("finite", f0, coords)  logd finite at x; coords[i] is a dict
+            vals : list of acceptable finite values of entry i (derivatives of logd along axis i from every side on which
+                   logd is finite in a neighbourhood: the central one where both sides are, otherwise the one-sided one;
+                   at a kink both one-sided derivatives), empty = nothing demanded of entry i
+            inf  : None | +inf | -inf | "any": acceptable non-finite value of entry i = the one-sided derivative taken from
+                   the side on which logd is -inf (in the extended reals: +inf at a lower bound, -inf at an upper bound;
+                   this is what a forward/backward difference across the bound reports); "any" when logd is NaN/+inf there
+            side : 'both' | '+' | '-' | 'none' (for coverage counts)"""
+    x = np.array(x, dtype=float, copy=True)
+    f0 = _probe(obj, x)
+    if np.isnan(f0):
+        return ("skip", "logd-raises-or-nan")
+    if not np.isfinite(f0):
+        return ("nonfinite", f0)
+    coords = []
+    for i in range(x.size):
+        fin = {}
+        val = {}
+        for s in (+1, -1):
+            z1 = x.copy(); z1[i] += s * H1
+            z2 = x.copy(); z2[i] += 2 * s * H1
+            val[s] = _probe(obj, z1)
+            fin[s] = bool(np.isfinite(val[s]) and np.isfinite(_probe(obj, z2)))
+        c = {"vals": [], "inf": None, "side": "none"}
+        if fin[+1] and fin[-1]:
+            c["side"] = "both"
+            v = _axis_derivative(obj, x, i, f0, 0)
+            if v is None:       # kink along this axis (or noisy logd): either one-sided derivative is acceptable
+                v = one_sided_pair(obj, x, i, f0)
+            c["vals"] = v
+        elif fin[+1] or fin[-1]:
+            s = +1 if fin[+1] else -1
+            c["side"] = "+" if s > 0 else "-"
+            c["vals"] = _axis_derivative(obj, x, i, f0, s) or []
+            out = val[-s]
+            # (f(x - s h) - f(x)) / (-s h) with f(x - s h) = -inf  ->  s * inf
+            c["inf"] = (s * np.inf) if (np.isinf(out) and out < 0) else "any"
+            if not c["vals"]:
+                c["inf"] = None         # no trustworthy inner derivative: demand nothing of this entry
+        coords.append(c)
+    return ("finite", f0, coords)
+
+
+def observe_boundary(case, kind, x, fd, fd_eps):
+    """Gradient at a point exactly on a bound of the support.  Oracle (the object's own logd decides):
+      logd(x) = -inf/+inf : gradient() raises or returns something with a non-finite entry
+      logd(x) finite      : gradient() raises, or has as many entries as x and entry i equals the derivative of logd along
+                            axis i taken from a side on which logd is finite (one-sided at the bound; either side at a kink),
+                            or is the signed infinity that the one-sided derivative from the -inf side gives
+      logd(x) NaN / raises: skipped.
+    Returns the same records as observe(); additionally 'branch' in {'nonfinite', 'finite'} for coverage."""
+    x = np.array(x, dtype=float, copy=True)
+    try:
+        g = case.obj.gradient(np.array(x, copy=True))
+    except Exception as e:
+        return {"status": "refused", "why": type(e).__name__}
+    a = as_vector(g)
+    if a is None:
+        return {"status": "bad", "cls": "none", "x": x,
+                "msg": "gradient() returned %r on the boundary of the support instead of raising or returning a vector" % (g,)}
+    ref = boundary_reference(case.obj, x)
+    if ref[0] == "skip":
+        return {"status": "skip", "why": ref[1]}
+    if ref[0] == "nonfinite":
+        if a.size == 0 or np.all(np.isfinite(a)):
+            return {"status": "bad", "cls": "finite", "x": x, "impl": a,
+                    "msg": "finite gradient %s reported at %s where the object's logd is %s"
+                    % (np.array2string(a.ravel(), precision=6), np.array2string(x, precision=6), ref[1])}
+        return {"status": "ok", "branch": "nonfinite", "allnan": bool(np.all(np.isnan(a)))}
+    _, f0, coords = ref
+    if all(not c["vals"] for c in coords):
+        return {"status": "skip", "why": "no-one-sided-neighbourhood"}
+    want = np.array([c["vals"][0] if c["vals"] else np.nan for c in coords])
+    desc = "[" + " ".join(("%.6g" % c["vals"][0] if c["vals"] else "*") + ("" if c["inf"] is None else "|%s" % (c["inf"],))
+                          for c in coords) + "]"
+    if a.size != x.size:
+        return {"status": "bad", "cls": "shape", "x": x, "impl": a, "ref": want,
+                "msg": "gradient has shape %s (size %d) but the evaluated variable has %d components; one-sided d logd/dx = %s"
+                % (a.shape, a.size, x.size, desc)}
+    v = a.ravel()
+    scale = max([1.0] + [abs(c["vals"][0]) for c in coords if c["vals"]])
+    if fd:
+        atol = TOL_FD * scale + 100 * EPS * max(1.0, abs(f0)) / fd_eps
+    else:
+        atol = TOL * scale
+    wrong = []
+    for i, c in enumerate(coords):
+        if not c["vals"]:
+            continue
+        if np.isfinite(v[i]):
+            if not any(abs(v[i] - r) <= atol for r in c["vals"]):
+                # the central derivative of a kinked logd is the mean of the one-sided ones: accept either of those
+                if c["side"] == "both" and any(abs(v[i] - r) <= atol for r in one_sided_pair(case.obj, x, i, f0)):
+                    continue
+                wrong.append(i)
+        else:
+            acc = c["inf"]
+            if isinstance(acc, str):        # "any": logd is NaN / +inf beyond the bound
+                continue
+            if acc is None or np.isnan(v[i]) or v[i] != acc:
+                wrong.append(i)
+    if wrong and fd and all(np.isfinite(v[i]) for i in wrong):
+        # same allowance as in observe(): measured evaluation noise of logd at the library's step, along the inner side
+        worst = 0.0
+        for i in wrong:
+            s = -1.0 if coords[i]["side"] == "-" else 1.0
+            z1 = x.copy(); z1[i] += s * fd_eps
+            z2 = x.copy(); z2[i] += 2 * s * fd_eps
+            d2 = _probe(case.obj, z2) - 2.0 * _probe(case.obj, z1) + f0
+            worst = np.inf if not np.isfinite(d2) else max(worst, abs(d2))
+        if np.isfinite(worst) and all(min(abs(v[i] - r) for r in coords[i]["vals"]) <= atol + 4.0 * worst / fd_eps for i in wrong):
+            return {"status": "skip", "why": "fd-roundoff-dominated"}
+    if not wrong:
+        return {"status": "ok", "branch": "finite", "shape_exact": tuple(a.shape) == tuple(x.shape), "impl": v, "ref": want,
+                "sides": "".join(sorted(set(c["side"] for c in coords))),
+                "infinite_entries": int(np.sum(~np.isfinite(v)))}
+    return {"status": "bad", "cls": "value", "x": x, "impl": v, "ref": want,
+            "msg": "on the boundary of the support, where the object's logd is finite (%.6g): gradient %s, entries %s differ from "
+                   "the (one-sided) derivative of logd %s  (* = nothing demanded; |+-inf = also accepted)"
+            % (f0, np.array2string(v, precision=6), wrong, desc)}
 
 
 # ------------------------------------------------------------------------------------------
